@@ -124,7 +124,13 @@ func (n *RaftNode) AddBulk(bulk [][]byte) ([]*balloon.Snapshot, error) {
 		return nil, err
 	}
 
-	snapshotBulk := resp.(*fsmResponse).val.([]*balloon.Snapshot)
+	fsmResp := resp.(*fsmResponse)
+	if fsmResp.err != nil {
+		// the FSM refused the command (e.g. "state already applied"): there
+		// are no snapshots to hand out
+		return nil, fsmResp.err
+	}
+	snapshotBulk := fsmResp.val.([]*balloon.Snapshot)
 
 	//Send snapshot to the snapshot channel
 	// TODO move this to an upper layer (shard manager?)
